@@ -460,7 +460,26 @@ func (f File) Generate(inputWriter io.Writer, settings GenerateSettings) error {
 		settings.enumSizes[en.Name] = fixedSizeTypes[en.SimpleType]
 	}
 
-	usedTypes := f.usedTypes()
+	// only this file's own definitions are generated below: definitions merged in from
+	// separately generated imports (they carry a Namespace) neither need imports here
+	// nor make the bebop/iohelp/io imports necessary
+	own := File{}
+	for _, st := range f.Structs {
+		if st.Namespace == "" {
+			own.Structs = append(own.Structs, st)
+		}
+	}
+	for _, msg := range f.Messages {
+		if msg.Namespace == "" {
+			own.Messages = append(own.Messages, msg)
+		}
+	}
+	for _, un := range f.Unions {
+		if un.Namespace == "" {
+			own.Unions = append(own.Unions, un)
+		}
+	}
+	usedTypes := own.usedTypes()
 	if settings.PackageName == "" && f.GoPackage != "" {
 		settings.PackageName = path.Base(f.GoPackage)
 	} else if settings.PackageName == "" {
@@ -482,12 +501,12 @@ func (f File) Generate(inputWriter io.Writer, settings GenerateSettings) error {
 	writeLine(w, "package %s", settings.PackageName)
 	writeLine(w, "")
 
-	if len(f.Messages)+len(f.Structs)+len(f.Unions) != 0 {
+	if len(own.Messages)+len(own.Structs)+len(own.Unions) != 0 {
 		imports = append(imports, "github.com/200sc/bebop")
 		imports = append(imports, "github.com/200sc/bebop/iohelp")
 	}
 
-	if len(f.Messages)+len(f.Structs)+len(f.Unions) != 0 {
+	if len(own.Messages)+len(own.Structs)+len(own.Unions) != 0 {
 		imports = append(imports, "io")
 	}
 	for _, c := range f.Consts {
